@@ -13,6 +13,7 @@ import (
 	"fmt"
 
 	"github.com/golang/protobuf/proto"
+	"github.com/google/tink/go/insecurecleartextkeyset"
 	"github.com/google/tink/go/keyset"
 	commonpb "github.com/google/tink/go/proto/common_go_proto"
 	ecdsapb "github.com/google/tink/go/proto/ecdsa_go_proto"
@@ -27,6 +28,7 @@ import (
 	clpb "github.com/hyperledger/aries-framework-go/component/kmscrypto/crypto/tinkcrypto/primitive/proto/cl_go_proto"
 	ecdhpb "github.com/hyperledger/aries-framework-go/component/kmscrypto/crypto/tinkcrypto/primitive/proto/ecdh_aead_go_proto"
 	secp256k1pb "github.com/hyperledger/aries-framework-go/component/kmscrypto/crypto/tinkcrypto/primitive/proto/secp256k1_go_proto"
+	"github.com/hyperledger/aries-framework-go/component/kmscrypto/doc/util/jwkkid"
 )
 
 const (
@@ -166,6 +168,19 @@ func (l *LocalKMS) buildAndImportECDSAPrivateKeyAsECDHKW(privKey *ecdsa.PrivateK
 }
 
 func (l *LocalKMS) importKeySet(ks *tinkpb.Keyset, opts ...kms.PrivateKeyOpts) (string, *keyset.Handle, error) {
+	pOpts := kms.NewOpt()
+
+	for _, opt := range opts {
+		opt(pOpts)
+	}
+
+	if pOpts.KsID() == "" {
+		// no key ID requested: like Create(), identify the (asymmetric) key by its public key's JWK thumbprint.
+		if kid := l.importedKeyID(ks); kid != "" {
+			opts = append(opts, kms.WithKeyID(kid))
+		}
+	}
+
 	ksID, err := l.writeImportedKey(ks, opts...)
 	if err != nil {
 		return "", nil, fmt.Errorf("import private EC key failed: %w", err)
@@ -177,6 +192,26 @@ func (l *LocalKMS) importKeySet(ks *tinkpb.Keyset, opts ...kms.PrivateKeyOpts) (
 	}
 
 	return ksID, kh, nil
+}
+
+// importedKeyID returns the JWK thumbprint based key ID of the keyset's public key, empty if it can't be built.
+func (l *LocalKMS) importedKeyID(ks *tinkpb.Keyset) string {
+	kh, err := insecurecleartextkeyset.Read(&keyset.MemReaderWriter{Keyset: ks})
+	if err != nil {
+		return ""
+	}
+
+	keyBytes, kt, err := l.exportPubKeyBytes(kh)
+	if err != nil {
+		return ""
+	}
+
+	kid, err := jwkkid.CreateKID(keyBytes, kt)
+	if err != nil {
+		return ""
+	}
+
+	return kid
 }
 
 func getMarshalledECDSAPrivateKey(privKey *ecdsa.PrivateKey, params *ecdsapb.EcdsaParams) ([]byte, error) {
